@@ -75,6 +75,7 @@ type Scenario struct {
 	NAddrs   int          `json:"naddrs"`   // number of host addresses (0/1 = one, -1 = none)
 	AddrDrop []int        `json:"addrdrop"` // indices of host addresses removed by the address filter
 	SlowCons bool         `json:"slowcons"` // the consumer of the result channel is scheduled like any other actor
+	SlowEv   bool         `json:"slowev,omitempty"` // so is the consumer of the lookup events (several answers can then be waiting while the lookup is blocked publishing)
 	Honest   bool         `json:"honest"`  // every peer answers with the K nearest peers of a k-bucket-complete table
 	Full     bool         `json:"full"`    // honest and every peer knows every other peer
 }
